@@ -774,12 +774,18 @@ func (b *bgen) injectScenario(name string, rootDefs, paths M, aux map[string]M, 
 		if _, exists := rootDefs[clash]; !exists {
 			rootDefs[clash] = M{"type": "object", "properties": M{"existing": M{"type": "boolean"}}}
 		}
-		if g.p(0.4) {
-			// two existing names that differ from the generated one (and from each other) by letter case only
+		twoSpellings := g.p(0.6)
+		if twoSpellings {
+			// two existing names that differ from the generated one (and from each other) by letter case only; half of the
+			// time the generated spelling itself is not among them
 			for _, v := range []string{strings.ToUpper(clash), strings.ToUpper(clash[:1]) + clash[1:]} {
 				if _, exists := rootDefs[v]; !exists && v != clash {
 					rootDefs[v] = M{"type": "object", "properties": M{"existing": M{"type": "string"}}}
 				}
+			}
+			if g.p(0.6) && clash != holder && strings.ToUpper(clash) != clash {
+				delete(rootDefs, clash)
+				clash = strings.ToUpper(clash)
 			}
 			g.hit("scenario:generated-name-clash-two-spellings")
 		}
